@@ -9,7 +9,7 @@
 # define IDEAL_HASHBUF 320
 #endif
 #ifndef IDEAL_MAXHASH
-# define IDEAL_MAXHASH 10
+# define IDEAL_MAXHASH 24
 #endif
 struct ideal_hash_log {
     int     alg;
